@@ -26,7 +26,7 @@ Mro(c) == IF c = "ASTNode" THEN <<"ASTNode">> ELSE <<c>> \o Mro(Base[c])
 
 IsSub(c, d) == d \in Range(Mro(c))
 
-IsSeqKind(k) == k \in {"tuple", "ftuple"}
+IsSeqKind(k) == k \in {"tuple", "ftuple", "list"}
 
 RECURSIVE Flatten(_)
 Flatten(ss) == IF ss = <<>> THEN <<>> ELSE Head(ss) \o Flatten(Tail(ss))
